@@ -370,7 +370,7 @@ class Group(_Handle):
         if isinstance(obj, _np.ndarray) and _is_npc(obj.dtype) and obj.ndim == 1:
             # h5py: group[name] = array creates a contiguous dataset (maxshape = shape)
             if name in self.node.links:
-                raise OSError("Unable to create link (name already exists)")
+                raise TypeError("Incompatible object already exists")        # h5py's answer
             node = DNode(obj.shape, obj.dtype, tuple(obj.shape), None)
             node.np = _npc_in(obj, obj.dtype, None)
             node.chunked = False
@@ -720,7 +720,16 @@ class _FArr:
                 raise IndexError("index out of bounds")
             if len(i) > len(self.shape):
                 raise IndexError("too many indices for array")
-            return rec(self.data, list(i))
+            res = rec(self.data, list(i))
+            if not isinstance(res, list):
+                return res
+            # shape of the selection: slices keep their axis (with the selected length), ints drop it
+            shp = []
+            for d, n in enumerate(self.shape):
+                k = i[d] if d < len(i) else slice(None)
+                if isinstance(k, slice):
+                    shp.append(len(range(*k.indices(n))))
+            return _FArr(res, tuple(shp), self.dtype.dt)
         return self.data[i]
 
     def ravel(self):
@@ -900,6 +909,8 @@ def _conc_index(k, n, fancy=False):
         if k == j or k == j - n:
             return j
     if fancy:
+        if k >= n:
+            raise OSError("Can't read data (fancy index out of range)")      # what h5py raises here
         raise IndexError("Fancy indexing out of range for (0-%d)" % (n - 1))
     raise IndexError("Index (%s) out of range for (0-%d)" % ("k", n - 1))
 
@@ -910,7 +921,7 @@ def _npc_key(key, n):
         if len(key) == 0:
             return "all", slice(None)
         if len(key) > 1:
-            raise TypeError("Argument sequence too long")
+            raise ValueError("too many indexing arguments")
         key = key[0]
     if key is Ellipsis:
         return "all", slice(None)
@@ -1042,9 +1053,18 @@ class Dataset(_Handle):
             i = key.index(Ellipsis)
             key = key[:i] + (slice(None),) * (len(shape) - len(key) + 1) + key[i + 1:]
         if len(key) > len(shape):
-            raise TypeError("Argument sequence too long")
+            raise ValueError("too many indexing arguments")
         key = key + (slice(None),) * (len(shape) - len(key))
         out_shape = []
+        # h5py validates the whole selection first (also when another axis selects nothing)
+        for d, k in enumerate(key):
+            if isinstance(k, slice):
+                if k.step is not None and k.step < 1:
+                    raise ValueError("Step must be >= 1")
+            elif k is Ellipsis:
+                raise ValueError("Only one ellipsis may be used.")
+            elif not (-shape[d] <= k < shape[d]):
+                raise IndexError("Index out of range for (0-%d)" % (shape[d] - 1,))
 
         def rec(x, d):
             if d == len(shape):
@@ -1054,7 +1074,7 @@ class Dataset(_Handle):
                 idx = range(*k.indices(shape[d]))
                 return [rec(x[i], d + 1) for i in idx]
             if not (-shape[d] <= k < shape[d]):
-                raise IndexError("Index (%s) out of range for (0-%s)" % (k, shape[d] - 1))
+                raise IndexError("Index out of range for (0-%d)" % (shape[d] - 1,))
             return rec(x[k], d + 1)
         res = rec(v, 0)
         for d, k in enumerate(key):
@@ -1639,6 +1659,109 @@ def _script_copy(h5, path):
     return obs
 
 
+def _script_tables(h5, path):
+    """1-d compound tables (data frames) and the order in which a selection is validated - same
+    script on h5py and on fakeh5"""
+    import h5py as _real_h5py
+    obs = []
+
+    def ex(fn):
+        try:
+            return ("ok", can(fn()))
+        except Exception as e:  # noqa
+            return ("exc", type(e).__name__)
+
+    def can(v):
+        if isinstance(v, _np.ndarray):
+            return ("arr", tuple(v.shape), [can(x) for x in v.reshape(-1)] if v.dtype.fields is None or v.shape
+                    else can(v[()]))
+        if isinstance(v, _np.void):
+            return tuple(can(x) for x in v)
+        if isinstance(v, _np.generic):
+            return v.item()
+        if isinstance(v, bytes):
+            return ("bytes", v.decode("utf-8"))
+        if isinstance(v, _FArr):
+            return ("arr", tuple(v.shape), [can(x) for x in _flat(v.tolist())])
+        if isinstance(v, _FScalar):
+            return v.value
+        if isinstance(v, (list, tuple)):
+            return [can(x) for x in v]
+        return v
+
+    def _flat(x):
+        if isinstance(x, list):
+            out = []
+            for e in x:
+                out.extend(_flat(e))
+            return out
+        return [x]
+
+    if isinstance(path, bytes):
+        path = path.decode()
+    vl = _real_h5py.string_dtype(encoding="utf-8", length=None)
+    dt = _np.dtype([("name", vl), ("id", _np.int64), ("x", _np.float64), ("ok", _np.bool_)])
+    with h5.File(path, mode="a") as f:
+        d = f.require_dataset("t", shape=(3,), dtype=dt, chunks=True, maxshape=(None,))
+        obs.append(("fresh", ex(lambda: d[:]), d.shape, d.maxshape, len(d)))
+        d[:] = _np.array([("a", 1, 1.5, True), ("b", 2, 2.5, False), ("c", 3, 3.5, True)], dtype=dt)
+        obs.append(("all", ex(lambda: d[:]), ex(lambda: d[...]), ex(lambda: d[()])))
+        obs.append(("names", d.dtype.names, [str(d.dtype.fields[n][0]) for n in d.dtype.names]))
+        for key in (0, 2, -1, -3, 3, -4):
+            obs.append(("int", key, ex(lambda: d[key])))
+        for key in ([0, 2], [1], [-1], [-3, -1], [1, 0], [1, 1], [0, 3], [-4], [], [0, -1], [-1, 0]):
+            obs.append(("list", key, ex(lambda: d[key])))
+        obs.append(("range", ex(lambda: d[range(0, 2)]), ex(lambda: d[slice(1, None)]), ex(lambda: d[1:3]),
+                    ex(lambda: d[::2]), ex(lambda: d[(slice(0, 2),)])))
+        obs.append(("field", ex(lambda: d["id"]), ex(lambda: d["name"]), ex(lambda: d["zz"])))
+        # writes: one row by list index (tuple, void), several rows, broadcast, refusals
+        obs.append(("w-tuple", ex(lambda: d.__setitem__([2], ("z", 9, 9.5, False))), ex(lambda: d[:])))
+        obs.append(("w-neg", ex(lambda: d.__setitem__([-1], ("y", 8, 8.5, True))), ex(lambda: d[:])))
+        obs.append(("w-oob", ex(lambda: d.__setitem__([3], ("y", 8, 8.5, True))),
+                    ex(lambda: d.__setitem__([-4], ("y", 8, 8.5, True))), ex(lambda: d[:])))
+        obs.append(("w-two", ex(lambda: d.__setitem__([0, 1], [("m", 1, 1.0, False), ("n", 2, 2.0, True)])),
+                    ex(lambda: d[:])))
+        obs.append(("w-unsorted", ex(lambda: d.__setitem__([1, 0], [("m", 1, 1.0, False), ("n", 2, 2.0, True)])),
+                    ex(lambda: d.__setitem__([0, 0], [("m", 1, 1.0, False), ("n", 2, 2.0, True)])),
+                    ex(lambda: d[:])))
+        obs.append(("w-ragged", ex(lambda: d.__setitem__([0], ("m", 1))),
+                    ex(lambda: d.__setitem__([0, 0], [("m", 1), ("n", 2)])), ex(lambda: d[:])))
+        obs.append(("w-text-in-number", ex(lambda: d.__setitem__([0], ("m", "q", 1.0, True))), ex(lambda: d[:])))
+        row = d[1]
+        row["id"] = 77
+        obs.append(("w-void", ex(lambda: d.__setitem__(1, row)), ex(lambda: d.__setitem__([1], tuple(row))),
+                    ex(lambda: d[:])))
+        rows = d[[0]]
+        rows["x"] = 0.25
+        obs.append(("w-rows-array", ex(lambda: d.__setitem__([0], rows)), ex(lambda: d[:])))
+        obs.append(("w-int-key", ex(lambda: d.__setitem__(2, ("k", 5, 5.5, True))), ex(lambda: d[2])))
+        # grow / shrink (chunked)
+        obs.append(("resize", ex(lambda: d.resize((5,))), d.shape, ex(lambda: d[:])))
+        obs.append(("w-slice", ex(lambda: d.__setitem__((slice(3, 5),), _np.array(
+            [("p", 5, 5.0, True), ("q", 6, 6.0, False)], dtype=dt))), ex(lambda: d[:])))
+        obs.append(("shrink", ex(lambda: d.resize((2,))), d.shape, ex(lambda: d[:])))
+        # a table made by assigning an array: contiguous, fixed size
+        f["u"] = _np.array([("a", 1, 1.5, True), (b"b", 2, 2.5, False)], dtype=dt)
+        u = f["u"]
+        obs.append(("assigned", ex(lambda: u[:]), u.shape, u.maxshape, ex(lambda: u.resize((3,)))))
+        obs.append(("assign-dup", ex(lambda: f.__setitem__("u", _np.zeros(1, dtype=dt)))))
+        obs.append(("require-existing", ex(lambda: f.require_dataset("u", shape=(2,), dtype=dt, chunks=True,
+                                                                     maxshape=(None,)).shape),
+                    ex(lambda: f.require_dataset("u", shape=(3,), dtype=dt).shape)))
+        del f["u"]
+        obs.append(("deleted", "u" in f))
+        e = f.require_dataset("e", shape=(0,), dtype=dt, chunks=True, maxshape=(None,))
+        obs.append(("empty", ex(lambda: e[:]), ex(lambda: e[0]), ex(lambda: e[[0]]), ex(lambda: e[[]]), len(e)))
+        # numeric arrays: the whole selection is validated before anything is read
+        a = f.require_dataset("a", shape=(3, 4), dtype=_np.float64, chunks=True, maxshape=(None, None))
+        a[...] = _np.arange(12.0).reshape(3, 4)
+        for key in ((slice(4, 0), -5), (slice(0, 0), 4), (slice(None, None, -1),), (slice(None, None, 0), 0),
+                    (Ellipsis, slice(None, None, 2)), (Ellipsis, 0, Ellipsis), (0, 0, 0), (slice(4, 0), 1),
+                    (1, Ellipsis, slice(1, None, 2)), (slice(None, None, 5), slice(-1, None)), (-1, -1), (3, 0)):
+            obs.append(("sel", repr(key), ex(lambda: a[key])))
+    return obs
+
+
 def validate_against_h5py():
     import os
     import shutil
@@ -1665,6 +1788,13 @@ def validate_against_h5py():
     finally:
         shutil.rmtree(tmp, ignore_errors=True)
     fake = fake + _script_copy(MODULE, b"/virtual/c.h5")
+    reset()
+    tmp = tempfile.mkdtemp(prefix="vf_fakeh5_")
+    try:
+        real = real + _script_tables(h5py, os.path.join(tmp, "d.h5"))
+    finally:
+        shutil.rmtree(tmp, ignore_errors=True)
+    fake = fake + _script_tables(MODULE, "/virtual/d.h5")
     reset()
     if len(real) != len(fake):
         raise AssertionError("fakeh5 script length differs")
